@@ -671,7 +671,7 @@ def nat_lines(rng, n):
     lines = []
     p64 = f64_patterns(rng, n)
     p32 = f32_patterns(rng, n)
-    ops = ["add", "sub", "mul", "div", "rem", "cmp", "min", "max"]
+    ops = ["add", "sub", "mul", "div", "rem", "cmp"]
     for i in range(n):
         a, b = rng.choice(p64), rng.choice(p64)
         k = rng.randrange(6)
@@ -781,9 +781,9 @@ def disp_lines_real(rng, n):
         elif k == 3:
             a = ftok("N", sg, min(s.emax, rng.randrange(0, 4000)), rand_mant(rng, P))
         elif k == 4:
-            a = ftok("N", sg, rng.randrange(-8, P + 8), rand_mant(rng, P))
+            a = ftok("N", sg, max(s.emin + 1, min(s.emax, rng.randrange(-8, P + 8))), rand_mant(rng, P))
         else:
-            a = rand_finite(rng, s, sg) if E <= 12 else ftok("N", sg, rng.randrange(-3000, 3000), rand_mant(rng, P))
+            a = rand_finite(rng, s, sg) if E <= 12 else ftok("N", sg, max(s.emin + 1, min(s.emax, rng.randrange(-3000, 3000))), rand_mant(rng, P))
         lines.append("disp %s %s" % (s, a))
     return lines
 
